@@ -169,6 +169,18 @@ def _decode_record(path):
         return "<undecodable: %s>" % type(e).__name__
 
 
+LEGAL_SEGMENT = re.compile(r"^[A-Za-z0-9_-]+\Z")
+
+
+def staging_name():
+    """The name Conductor itself uses for the staging directory of restore (the subject's own constant)."""
+    try:
+        from conductor.config import ARCHIVE_STAGING
+        return ARCHIVE_STAGING
+    except Exception:  # noqa: BLE001
+        return "archive-tmp"
+
+
 def project_store(root):
     """Abstract Store state of a project: index rows, version directories at task positions (with digests),
     plain task dirs, staging leftovers, everything else."""
@@ -201,7 +213,9 @@ def project_store(root):
             if TDIR.match(nme):
                 tdirs[r] = {"digest": subtree_digest(tree, r)}
                 continue
-            if rel == "" and nme == "archive-tmp":
+            if rel == "" and nme == staging_name() and not LEGAL_SEGMENT.match(nme):
+                # the staging directory of `cond restore` - as long as its name cannot be a package path segment; a name that
+                # is also a legal package name is a package directory like any other (it may hold recorded versions)
                 other.append(r)
                 continue
             walk(r)
